@@ -17,10 +17,15 @@ def gen_cases(ctx, n, sizes):
     rng = ctx.rng
     for i in range(n):
         rows, cols = rng.choice(sizes)
+        if rows * cols > 100 and rng.random() < 0.85:
+            rows, cols = rng.choice([x for x in sizes if x[0] * x[1] <= 100])      # large screens are sampled sparingly
         letters = 'abcXYZ' if rng.random() < 0.8 else 'aé\xff'
         ops = [S.gen_op(rng, rows, cols, letters) for _ in range(rng.randint(1, 8))]
         # make scrolling / erasing visible: start from a filled grid most of the time
-        if rng.random() < 0.7:
+        if rows * cols > 100:
+            # a large screen is filled with a few strokes, not cell by cell
+            ops = [('fill', ('z',))] + [('put_abs', (rng.randint(1, rows), rng.randint(1, cols), rng.choice('abcdefg'))) for _ in range(6)] + ops
+        elif rng.random() < 0.7:
             pre = []
             k = 0
             for r in range(1, rows + 1):
